@@ -9,18 +9,28 @@ TRUSTED = [
 ]
 
 # result lines are `class | field1 | field2`; a property lists the fields it depends on
-ENC_ALL = {"enc": [0, 1, 2], "wop": [0, 1, 2]}
-ENC_BYTES = {"enc": [0, 1], "wop": [0, 1]}
-ENC_CLASS = {"enc": [0], "wop": [0]}
-DEC_ALL = {"dec": [0, 1, 2], "rop": [0, 1, 2]}
-DEC_CONSUME = {"dec": [0, 1], "rop": [0, 1]}
-DEC_CLASS = {"dec": [0], "rop": [0]}
-OTHER = {"cks": [0, 1], "cksrep": [0, 1], "reg": [0, 1], "lookup": [0, 1], "zero": [0, 1]}
+ENC_ALL = {"enc": [0, 1, 2], "wop": [0, 1, 2], "irw": [0, 1, 2]}
+ENC_BYTES = {"enc": [0, 1], "wop": [0, 1], "irw": [0, 1]}
+ENC_CLASS = {"enc": [0], "wop": [0], "irw": [0]}
+DEC_ALL = {"dec": [0, 1, 2], "rop": [0, 1, 2], "irr": [0, 1, 2]}
+DEC_CONSUME = {"dec": [0, 1], "rop": [0, 1], "irr": [0, 1]}
+DEC_CLASS = {"dec": [0], "rop": [0], "irr": [0]}
+OTHER = {"cks": [0, 1], "irc": [0, 1], "cksrep": [0, 1], "reg": [0, 1], "lookup": [0, 1], "zero": [0, 1]}
 
 VALUES = ("type-directed values of all 170 types: scalars {0,1,max,sign bit,non-palindromic,NaN payloads,random}; text {empty,short,"
           "exact width,over-long,interior/leading/trailing pad,NUL,>=0x80,multi-byte runes at the cut}; lists {0,1,2,random,255,256,16384"
           "[,65535]}; every one of the 226 discriminator keys; buffer histories {empty, prior content, earlier frames, consumed prefix, "
           "no spare capacity, stale spare capacity}. ")
+
+# theorems about the committed GoIR translation of codec/*.go (Props/GoIR_*.lean); they carry over to the current sources when
+# the regenerated translation is identical (Obl.ir_repo, kernel-evaluated on every run)
+_G = "FinProto.GoIR."
+IR_A = [_G + x for x in ("ir_writeScalar", "ir_readScalar", "ir_writeLen", "ir_writeVstr", "ir_readVstr")]
+IR_B = [_G + x for x in ("ir_padding", "ir_writeFixed", "ir_writeFixedDef", "ir_readFixed", "ir_readFixedDef")]
+IR_C = [_G + x for x in ("ir_writeNums", "ir_writeFixeds", "ir_writeFixedsDef", "ir_writeVstrs", "ir_writeObjs")]
+IR_D = [_G + x for x in ("ir_readNums", "ir_readFixeds", "ir_readFixedsDef", "ir_readVstrs", "ir_readObjs")]
+IR_E = [_G + x for x in ("ir_crc16", "ir_crc32", "ir_sse", "ir_szse")]
+IR_THEOREMS = ["FinProto.Obl.ir_repo"] + IR_A + IR_B + IR_C + IR_D + IR_E
 
 PROPS = {
     "C01": {
@@ -42,6 +52,7 @@ PROPS = {
                         "present in the generator's output at that commit is invisible to this property"],
     },
     "C03": {
+        "ir_theorems": IR_A + IR_C + IR_D,
         "theorems": ["FinProto.Obl.C03_prims", "FinProto.Obl.C03_messages", "FinProto.Obl.C03_no_unrecognised_statement", "FinProto.Obl.C03_scalar", "FinProto.toE_le_eq_reverse_be", "FinProto.writeNums_ok", "FinProto.writeVstr_ok", "FinProto.writeFixeds_ok", "FinProto.writeVstrs_ok", "FinProto.writeNums_le_be", "FinProto.writeNums_is", "FinProto.readNums_is", "FinProto.writeVstrs_is", "FinProto.readVstrs_is", "FinProto.writeFixeds_is", "FinProto.readFixeds_is", "FinProto.writeNums_mixed_differs", "FinProto.writeVstr_le_be", "FinProto.writeFixeds_le_be", "FinProto.writeVstrs_le_be",
                      "FinProto.Obl.C03_nosvc", "FinProto.encodeNS_spec", "FinProto.encFrameNS_spec"],
         "aspects": {**ENC_BYTES, **DEC_ALL, "encns": [0, 1]},
@@ -84,6 +95,7 @@ PROPS = {
                 "fields may only be replaced by their correct values).",
     },
     "C09": {
+        "ir_theorems": [_G + x for x in ("ir_readScalar", "ir_readVstr", "ir_readFixed", "ir_readNums", "ir_readFixeds", "ir_readVstrs", "ir_readObjs")],
         "theorems": ["FinProto.Obl.C09_widths", "FinProto.Obl.C09_elems", "FinProto.Obl.C09_no_unrecognised_statement", "FinProto.Obl.C09_no_panic", "FinProto.dec_no_panic", "FinProto.dec_ok_or_err", "FinProto.Obl.C09_linear_time", "FinProto.Obl.C09_cost_projection", "FinProto.decTyC_steps_linear", "FinProto.repIters_le"],
         "aspects": {**DEC_CLASS},
         "extra_race": "C09PAR",
@@ -117,12 +129,14 @@ PROPS = {
                 "digit-arithmetic aliases, trimmed/lower-cased) decoded four times through fresh and reused receivers.",
     },
     "C13": {
+        "ir_theorems": IR_B + [_G + "ir_writeFixeds", _G + "ir_readFixeds"],
         "theorems": ["FinProto.Obl.C13_fixed_fields", "FinProto.Obl.C13_prims", "FinProto.writeFixed_length", "FinProto.writeFixed_long", "FinProto.writeFixed_exact", "FinProto.writeFixed_short_left", "FinProto.writeFixed_short_right", "FinProto.trimL_spec", "FinProto.trimR_spec", "FinProto.readFixed_eq", "FinProto.trim_writeFixed", "FinProto.writeFixed_trim", "FinProto.writeFixeds_ok", "FinProto.readFixeds_writeFixeds"],
         "aspects": {**ENC_BYTES, **DEC_ALL},
         "rule": "N in 0..40 x pad bytes {space,'0',NUL,0xE9,0x80,0xFF,'A',0xC3,0xA9,random} x both sides x text generator (incl. multi-byte "
                 "runes); reads of arbitrary N-byte fields; exhaustive for N<=2 over strings of length <=2 (<=3 thorough) over {pad,'a',NUL,0xC3}.",
     },
     "C14": {
+        "ir_theorems": IR_E,
         "theorems": ["FinProto.Obl.C14_calc_bodies", "FinProto.crc16_template_is", "FinProto.sse_template_is", "FinProto.szse_template_is", "FinProto.sseGo_eq", "FinProto.sseGo_lt", "FinProto.szseGo_eq", "FinProto.szseGo_lt", "FinProto.crc16Go_eq_modbus", "FinProto.crc32Go_eq_ieee"],
         "aspects": {**OTHER},
         "rule": "4 algorithms x all byte strings of length <= 2 against independent references (<= 3 in the thorough tier), random lengths to "
@@ -153,6 +167,7 @@ PROPS = {
                 "fields, multi-byte text in every text field, absent body with each registered and 8 unregistered keys; outcome class vs model.",
     },
     "C18": {
+        "ir_theorems": [_G + x for x in ("ir_writeLen", "ir_writeVstr", "ir_writeNums", "ir_writeFixeds", "ir_writeVstrs", "ir_writeObjs")],
         "theorems": ["FinProto.Obl.C18_prims", "FinProto.Obl.C18_no_unrecognised_statement", "FinProto.writeLen_ok", "FinProto.writeLen_err", "FinProto.writeVstr_err", "FinProto.writeList_err", "FinProto.writeNums_err", "FinProto.writeFixeds_err", "FinProto.writeVstrs_err", "FinProto.writeVstrs_err_elem", "FinProto.readVstr_writeVstr", "FinProto.readNums_writeNums", "FinProto.readFixeds_writeFixeds", "FinProto.readVstrs_writeVstrs"],
         "aspects": {**ENC_BYTES, **DEC_ALL},
         "rule": "every prefixed primitive x prefix widths {1,2} x lengths {max-1,max,max+1,max+2,2max+1,2max+2,max+4} x both byte orders x "
